@@ -314,3 +314,38 @@ func ZZ_C16_TextRetained(under int) {
 	vrt.Assert(s2[j] == b[j], "c16-retained-second-string-content")
 	vrt.Reach("c16-retained-done")
 }
+
+// ZZ_C16_JSONTwoFrames: two frames through the same JSON codec instance (under the encoding/json contract stub,
+// whose decoder reads ahead like the real one and may leave unconsumed bytes behind): whatever the first frame
+// was - valid, followed by trailing bytes, or rejected - the decoder that handles the second frame starts from the
+// second frame's first byte and sees exactly its bytes.
+func ZZ_C16_JSONTwoFrames(useNumber, disallow int) {
+	if !vrt.Symbolic() {
+		return
+	}
+	cdc := JSONCodec(useNumber != 0, disallow != 0)
+	n1 := 1 + vrt.Choose(3)
+	n2 := vrt.Choose(3)
+	f1 := vrt.Bytes(n1)
+	f2 := vrt.Bytes(n2)
+	r1 := &zzCtx{}
+	pv1 := vrt.Panics(func() { cdc.HandleRead(r1, bytes.NewReader(f1)) })
+	vrt.Assert((pv1 == nil) == (len(r1.in) == 1), "c16-json-delivers-iff-no-exception")
+	r2 := &zzCtx{}
+	pv2 := vrt.Panics(func() { cdc.HandleRead(r2, f2) })
+	if pv2 != nil {
+		vrt.Assert(len(r2.in) == 0, "c16-json-error-delivers-nothing")
+		vrt.Reach("c16-json-second-rejected")
+		return
+	}
+	vrt.Assert(len(r2.in) == 1, "c16-json-delivers-one-object")
+	obj, ok := r2.in[0].(map[string]interface{})
+	vrt.Assert(ok, "c16-json-delivers-a-map")
+	got, _ := obj["__frame__"].(string)
+	vrt.Assert(len(got) == n2, "c16-json-second-frame-parsed-from-its-own-bytes")
+	if n2 > 0 && len(got) == n2 {
+		i := vrt.IntIn(0, n2-1)
+		vrt.Assert(got[i] == f2[i], "c16-json-second-frame-parsed-from-its-own-bytes")
+	}
+	vrt.Reach("c16-json-second-decoded")
+}
